@@ -26,6 +26,7 @@ ctor-ref-keyword-case).  Both were defects of the original code (repaired by fix
 """
 import itertools
 import os
+import re
 import uuid
 
 from sexp import Sym, dumps
@@ -131,42 +132,104 @@ def _value(r, ty, allow_none=True):
     return r.randint(0, 4)
 
 
-def _random_case(r, maxlen):
-    # schema: target class A (first attribute is the key), source class B with one referential attribute
+SQL_RESERVED = ('CREATE', 'FALSE', 'FROM', 'INDEX', 'INSERT', 'INTO', 'ON', 'PHRASE', 'REF_ID', 'ROP', 'TABLE', 'TO',
+                'TRUE', 'UNIQUE', 'VALUES')
+
+
+def _sql_value(v, ty, r):
+    T = ty.upper()
+    if T == 'STRING':
+        return "'%s'" % v.replace("'", "''")
+    if T == 'UNIQUE_ID' and r.random() < 0.6:
+        return '"%s"' % uuid.UUID(int=v)
+    return '%d' % v
+
+
+def _random_case(r, maxlen, load=False):
+    # schema: target class A (first attribute is the key), source class B with one referential attribute;
+    # with `load` the classes, the association and the first rows are given as SQL text to xtuml.ModelLoader
+    def ident(lo, hi):
+        while True:
+            nm = _ident(r, lo, hi)
+            # the text grammar cannot spell every identifier: R<digit>... lexes as a relation id (any respelling may be used), keywords are reserved
+            if not (load and (re.match(r'[Rr][0-9]', nm) or nm.upper() in SQL_RESERVED)):
+                return nm
+
     def mk_attrs(n):
         out, seen = [], set()
         while len(out) < n:
-            nm = _ident(r, 1, 6)
+            nm = ident(1, 6)
             if nm.upper() in seen:
                 continue
             seen.add(nm.upper())
             out.append([nm, respell(r, r.choice(TYPES))])
         return out
-    ka, kb = _ident(r, 1, 5), _ident(r, 1, 5)
+    ka, kb = ident(1, 5), ident(1, 5)
     while kb.upper() == ka.upper():
-        kb = _ident(r, 1, 5)
+        kb = ident(1, 5)
     a_attrs = mk_attrs(r.randint(1, 4))
     key_ty = r.choice(['unique_id', 'integer', 'string'])
     a_attrs[0][1] = respell(r, key_ty)
     b_attrs = mk_attrs(r.randint(2, 5))
-    with_assoc = r.random() < 0.85
+    with_assoc = r.random() < 0.85 or load
     ref_name = None
     if with_assoc:
         pos = r.randrange(len(b_attrs))
         ref_name = b_attrs[pos][0]
         b_attrs[pos][1] = respell(r, key_ty)
     ops = [['define', ka, a_attrs], ['define', kb, b_attrs]]
-    if r.random() < 0.2:
+    if load:
+        ops = []
+    if not load and r.random() < 0.2:
         ops.append(['define', respell(r, ka), []])                      # rejected: already defined
-    if r.random() < 0.15:
+    if not load and r.random() < 0.15:
         kc = ka + kb + 'C'                                              # rejected: attribute names collide
         ops.append(['define', kc, [['Val', 'integer'], ['vAL', 'string']]])
         ops.append(['find', respell(r, kc)])
-    if with_assoc:
+    if with_assoc and not load:
         ops.append(['assoc', respell(r, kb), ref_name, respell(r, ka), respell(r, a_attrs[0][0])])
     classes = {ka.upper(): (ka, a_attrs, None), kb.upper(): (kb, b_attrs, ref_name)}
     insts = []            # KIND per instance
     present = {}          # (i, NAME) -> bool
+    sql, rows = [], []
+    if load:
+        tkey = respell(r, a_attrs[0][0])
+        for kind, attrs in ((ka, a_attrs), (kb, b_attrs)):
+            sql.append('CREATE TABLE %s (%s);' % (kind, ', '.join('%s %s' % (a, t) for a, t in attrs)))
+        sql.append('CREATE ROP REF_ID R1 FROM MC %s (%s) TO 1C %s (%s);' % (respell(r, kb), ref_name, respell(r, ka), tkey))
+        kT = a_attrs[0][1].upper()
+        keys = r.sample(['k1', 'k2', 'k3', 'k4'] if kT == 'STRING' else [1, 2, 3, 4, 5], r.randint(1, 3))
+        null_key = '' if kT == 'STRING' else 0
+        planned = [(ka, a_attrs, k) for k in keys]
+        for _ in range(r.randint(2, 4)):
+            # a referential value: an existing key, a dangling one, or the null value
+            planned.append((kb, b_attrs, r.choice(keys + [99 if kT != 'STRING' else 'zz', null_key])))
+        r.shuffle(planned)
+        for kind, attrs, special in planned:
+            row = {}
+            for n, (a, t) in enumerate(attrs):
+                if (kind == ka and n == 0) or (kind == kb and a == ref_name):
+                    row[a] = special
+                else:
+                    row[a] = _value(r, t, allow_none=False)
+            named = r.random() < 0.6
+            if named:
+                cols = [a for a, _ in attrs if r.random() < 0.85 or a == attrs[0][0]]
+                r.shuffle(cols)
+                sql.append('INSERT INTO %s (%s) VALUES (%s);' % (
+                    respell(r, kind), ', '.join(respell(r, a) for a in cols),
+                    ', '.join(_sql_value(row[a], dict(attrs)[a], r) for a in cols)))
+                for a, _ in attrs:
+                    if a not in cols:
+                        row[a] = None                                       # a column the statement does not mention
+            else:
+                sql.append('INSERT INTO %s VALUES (%s);' % (
+                    respell(r, kind), ', '.join(_sql_value(row[a], t, r) for a, t in attrs)))
+            i = len(insts)
+            insts.append(kind.upper())
+            rows.append([kind.upper(), [[a, row[a]] for a, _ in attrs]])
+            for a, _ in attrs:
+                present[(i, a.upper())] = (a != classes[kind.upper()][2])
 
     def pick_inst(kind=None):
         c = [i for i, k in enumerate(insts) if kind is None or k == kind]
@@ -203,7 +266,7 @@ def _random_case(r, maxlen):
             present[(i, nm.upper())] = (nm != ref)
         return ['new', respell(r, kind), args, kw2]
 
-    for _ in range(r.randint(2, 4)):
+    for _ in range(r.randint(0 if load else 2, 4)):
         ops.append(gen_new())
     n = r.randint(3, maxlen)
     for _ in range(n):
@@ -252,6 +315,9 @@ def _random_case(r, maxlen):
             ops.append(['ser', i, [t for _, t in attrs]])
         else:
             ops.append(['find', respell(r, r.choice([ka, kb])) if r.random() < 0.8 else _ident(r, 1, 3)])
+    if load:
+        return {'fam': 'load', 'ops': ops, 'sql': '\n'.join(sql) + '\n', 'rows': rows,
+                'schema': {'a': [ka, a_attrs], 'b': [kb, b_attrs], 'ref': ref_name, 'tkey': a_attrs[0][0]}}
     return {'fam': 'rand', 'ops': ops}
 
 
@@ -331,6 +397,9 @@ def generate(ctx):
     n = ctx.pick(5000, 40000)
     for i in range(n):
         yield _random_case(rng.fork(i), 40)
+    rng = ctx.rng.fork('loaded')
+    for i in range(ctx.pick(2500, 20000)):
+        yield _random_case(rng.fork(i), 25, load=True)
 
 
 # --------------------------------------------------------------------------- implementation side
@@ -431,7 +500,8 @@ def run_impl(case):
 
     def fail(sig, what, upto):
         if len(fails) < 4:
-            fails.append({'sig': sig, 'what': '%s; history: %s' % (what, dumps(_ops_sexp(case['ops'][:upto + 1])))})
+            pre = ('loaded from: %s ; ' % ' '.join(case['sql'].split('\n'))) if case['fam'] == 'load' else ''
+            fails.append({'sig': sig, 'what': '%s; %shistory: %s' % (what, pre, dumps(_ops_sexp(case['ops'][:max(upto, -1) + 1])))})
 
     def check_instance(i, upto):
         """D on one instance: every spelling reads the cell; no stray __dict__ key"""
@@ -442,6 +512,10 @@ def run_impl(case):
             if k.upper() in up and up[k.upper()] != k:
                 fail('stray-dict-key', '__dict__ of instance %d holds the key %r beside the declared attribute %r'
                      % (i, k, up[k.upper()]), upto)
+            elif d['ref'] is not None and k.upper() == d['ref'].upper():
+                fail('referential-value-stored-twice', '__dict__ of instance %d holds a value under the referential attribute '
+                     '%r, whose value is given by the link (spellings other than the declared one read this copy)'
+                     % (i, k), upto)
         for nm, _ in d['attrs']:
             want = orc.expected(i, nm)
             if want is UNKNOWN or want is ABSENT:
@@ -468,6 +542,44 @@ def run_impl(case):
         orc.inst_kind.append(K)
         return i
 
+    if case['fam'] == 'load':
+        loader = x.ModelLoader()
+        loader.input(case['sql'])
+        m = loader.build_metamodel(x.IntegerGenerator())
+        sch = case['schema']
+        (ka, a_attrs), (kb, b_attrs) = sch['a'], sch['b']
+        orc.classes[ka.upper()] = {'kind': ka, 'attrs': [tuple(a) for a in a_attrs], 'ref': None}
+        orc.classes[kb.upper()] = {'kind': kb, 'attrs': [tuple(a) for a in b_attrs], 'ref': sch['ref']}
+        orc.assoc = (kb.upper(), sch['ref'], ka.upper(), sch['tkey'].upper())
+        seen = {}
+        for K, row in case['rows']:
+            mc = m.metaclasses.get(K)
+            k = seen.get(K, 0)
+            seen[K] = k + 1
+            if mc is None or k >= len(mc.storage):
+                fail('row-not-loaded', 'row %d of %s was not created by the loader' % (k, K), -1)
+                return {'obs': [], 'd_fail': fails, 'nontrivial': False, 'key': case['sql'], 'stats': stats}
+            inst = mc.storage[k]
+            i = len(insts)
+            insts.append(inst)
+            index_of[id(inst)] = i
+            orc.inst_kind.append(K)
+            for a, v in row:
+                orc.cells[(i, a.upper())] = v
+        kT = dict((a.upper(), t) for a, t in a_attrs)[sch['tkey'].upper()].upper()
+        for i, (K, row) in enumerate(case['rows']):
+            if K != kb.upper():
+                continue
+            v = dict((a, w) for a, w in row)[sch['ref']]
+            null = v is None or (kT == 'STRING' and v == '') or (kT != 'STRING' and v == 0)
+            hits = [j for j, (K2, row2) in enumerate(case['rows'])
+                    if K2 == ka.upper() and dict((a, w) for a, w in row2)[sch['tkey']] == v]
+            orc.link[i] = hits[0] if (hits and not null) else None
+        stats['loaded_rows'] = len(insts)
+        stats['loaded_dangling_or_null_refs'] = sum(1 for i, (K, _) in enumerate(case['rows'])
+                                                    if K == kb.upper() and orc.link[i] is None)
+        for i in range(len(insts)):
+            check_instance(i, -1)
     for n, op in enumerate(case['ops']):
         nm = op[0]
         stats['op_' + nm] = stats.get('op_' + nm, 0) + 1
@@ -693,7 +805,7 @@ def run_impl(case):
                     links.append([index_of.get(id(b), -1), index_of.get(id(a), -1)])
     obs.append([Sym('state')] + state)
     obs.append([Sym('links')] + sorted(links))
-    key = dumps(_ops_sexp(case['ops']))
+    key = dumps(_ops_sexp(case['ops'])) + (case['sql'] if case['fam'] == 'load' else '')
     return {'obs': obs, 'd_fail': fails, 'nontrivial': nontrivial or (case['fam'] == 'exh' and _exh_nontrivial(case))
             or (case['fam'] == 'cls' and _cls_nontrivial(case)),
             'key': key, 'stats': stats}
@@ -795,6 +907,8 @@ def _ops_sexp(ops):
 
 
 def model_line(case):
+    if case['fam'] == 'load':
+        return None          # D only: the history starts from what xtuml.ModelLoader built, which the model does not construct
     return dumps([Sym('attr')] + _ops_sexp(case['ops']))
 
 
